@@ -12,6 +12,7 @@ import hashlib
 from trie.utils.db import ScratchDB
 
 from ..core import HarnessError, Stats, Violation, deep, hx, unhx
+from ..hworld import in_handler
 from ..simdb import SimDB
 
 ID = "C17"
@@ -40,6 +41,7 @@ PROBES = [
     "abort-base-exception",
     "empty-batch-after",
     "copy-checked",
+    "exit-inside-active-except-handler",
 ]
 FAULTS = ["batch-abort", "batch-abort-base", "second-party-write"]
 COMPONENTS = {
@@ -91,7 +93,8 @@ class World:
         try:
             for cmd in cmds:
                 self.ev += 1
-                out = getattr(self, "op_" + cmd["op"])(cmd)
+                fn = getattr(self, "op_" + cmd["op"])
+                out = in_handler(fn, cmd) if cmd.get("hdl") else fn(cmd)
                 self.st.rec(self.ev, cmd["op"], out, len(self.db.raw()))
                 self.st.sched_rec(cmd["op"], out)
                 alarms = self.db.take_alarms()
@@ -235,6 +238,8 @@ class World:
         if self.gen is None:
             return "skip"
         how = cmd.get("how", "normal")
+        if cmd.get("hdl"):
+            self.st.probe("exit-inside-active-except-handler")
         g = self.gen
         self.db.mon_frozen = False
         st = self.st
@@ -357,11 +362,20 @@ def generate(rng):
     ops = gen_ops(rng, keys, vals, rng.choice(deep([0, 1, 2, 3, 4, 6, 8, 12], [1, 2, 4, 8, 12, 20, 30])))
     suffix = [{"op": "settle", "keys": [hx(k) for k in keys], "dd": int(rng.random() < 0.5)}]
     suffix += [c for c in gen_ops(rng, keys, vals, 3) if c["op"] in ("read", "contains")]
-    return {"cfg": {"initial": initial}, "prefix": prefix, "dd": dd, "ops": ops, "suffix": suffix}
+    base = {"cfg": {"initial": initial}, "prefix": prefix, "dd": dd, "ops": ops, "suffix": suffix}
+    # the client may be inside an except clause when it makes a call or leaves the block
+    p_hdl = rng.choice([0.0, 0.0, 0.2, 0.5])
+    if p_hdl:
+        for c in prefix + ops:
+            if rng.random() < p_hdl:
+                c["hdl"] = 1
+        if rng.random() < 0.7:
+            base["exit_extra"] = {"hdl": 1}
+    return base
 
 
 def variant(base, p, how):
-    cmds = list(base["prefix"]) + [{"op": "open", "dd": base["dd"]}] + list(base["ops"][:p]) + [{"op": "exit", "how": how}] + list(base["suffix"])
+    cmds = list(base["prefix"]) + [{"op": "open", "dd": base["dd"]}] + list(base["ops"][:p]) + [dict({"op": "exit", "how": how}, **base.get("exit_extra", {}))] + list(base["suffix"])
     return {"prop": ID, "cfg": base["cfg"], "cmds": cmds}
 
 
